@@ -25,12 +25,15 @@ _coq_eval_cases = vlib.coq_eval_cases
 
 
 _BULK = re.compile(r"MChurn \S+ \S+ (\d+)|MSetSeq \S+ (\d+) \S+|MDelSeq \S+ (\d+)")
+_CBULK = re.compile(r"\b[cx](?:del|set)seq \(?-?\d+\)? (\d+)")
 
 
 def _term_weight(t):
     """Estimated cost in list-element visits (about 2e6 per second): a light case is ~45 ms; a
     SafeMap bulk operation costs (number of primitive operations) x (keys alive)."""
     w = 60000 + 30 * len(t)
+    if "seq " in t:
+        w += sum(1500 * int(n) for n in _CBULK.findall(t))
     if "MChurn" in t or "MSetSeq" in t or "MDelSeq" in t:
         live = 3
         for m in _BULK.finditer(t):
@@ -281,7 +284,7 @@ def _obs(o):
 OBSERVING = ("get", "take", "take_race", "take_nested", "held", "size")
 
 
-def flatten_cache(ops, seen):
+def flatten_cache(ops, seen, expand=True):
     """Cache histories as the models read them: bulk operations expanded, and every gated Take
     (`take_gate k v inner`: the loader is held while `inner` runs on another goroutine) put at its
     linearisation point - where its loader returned and the loaded value was stored: after the
@@ -293,9 +296,9 @@ def flatten_cache(ops, seen):
     fops, fseen = [], []
 
     def emit(o):
-        if o[0] == "delseq":
+        if o[0] == "delseq" and expand:
             fops.extend(["del", o[1] + i] for i in range(o[2]))
-        elif o[0] == "setseq":
+        elif o[0] == "setseq" and expand:
             fops.extend(["set", o[1] + i] + list(o[3:5]) for i in range(o[2]))
         else:
             fops.append(o)
@@ -1450,16 +1453,17 @@ class C16(Property):
         if k == "set":
             return "KSet %s %s" % (clist(sum([self._sops(o) for o in case["ops"]], [])), so)
         if k == "cache":
-            fops, fseen = flatten_cache(case["ops"], seen)
-            return "KCache %s %s %s" % (cz(case["limit"]), clist(self._cache_ops(fops, fseen)), clist([_obs(o) for o in fseen]))
+            fops, fseen = flatten_cache(case["ops"], seen, expand=False)
+            return "KCache %s %s %s" % (cz(case["limit"]), self._segments(self._cache_ops(fops, fseen)),
+                                        clist([_obs(o) for o in fseen]))
         if k == "cache_rt":
             return "KCache %s %s %s" % (cz(case["limit"]), clist(sum([self._ccops(o) for o in self._rt_ops(case, obs)], [])), so)
         if k == "cachew":
             c = self.consts
             iv_ms = c["interval_ns"] // 10 ** 6
-            fops, fseen = flatten_cache(case["ops"], seen)
+            fops, fseen = flatten_cache(case["ops"], seen, expand=False)
             return "KCacheW %s %s %s %s %s %s" % (cz(case["limit"]), cz(c["slots"]), cz(iv_ms), cbool(c["rewrite_moves"]),
-                                                  clist([self._xop(o, case["expire_ms"]) for o in fops]),
+                                                  self._segments([self._xop(o, case["expire_ms"]) for o in fops]),
                                                   clist([_obs(o) for o in fseen]))
         if k == "cache_take2":
             # the pair of concurrent Takes must be indistinguishable from ONE loading Take (by A):
@@ -1601,9 +1605,32 @@ class C16(Property):
                 res += self._ccops(o)
         return res
 
+    @staticmethod
+    def _segments(terms):
+        """a list of operation terms in which a term starting with '@' is itself a list (a bulk run:
+        Check.cdelseq / csetseq / xdelseq / xsetseq): [a; b] ++ bulk ++ [c]"""
+        if not any(t.startswith("@") for t in terms):
+            return clist(terms)
+        segs, cur = [], []
+        for t in terms:
+            if t.startswith("@"):
+                if cur:
+                    segs.append(clist(cur))
+                    cur = []
+                segs.append(t[1:])
+            else:
+                cur.append(t)
+        if cur:
+            segs.append(clist(cur))
+        return "(%s)" % " ++ ".join(segs)
+
     def _ccops(self, o):
         t = o[0]
         fetch = lambda f: "None" if f is None else "(Some %s)" % cz(f)
+        if t == "delseq":
+            return ["@cdelseq %s %s" % (cz(o[1]), cz(o[2]))]
+        if t == "setseq":
+            return ["@csetseq %s %s %s" % (cz(o[1]), cz(o[2]), cz(o[3]))]
         if t == "set":
             return ["CC (CSet %s %s)" % (cz(o[1]), cz(o[2]))]
         if t == "get":
@@ -1622,6 +1649,10 @@ class C16(Property):
 
     def _xop(self, o, default_ms):
         t = o[0]
+        if t == "delseq":
+            return "@xdelseq %s %s" % (cz(o[1]), cz(o[2]))
+        if t == "setseq":
+            return "@xsetseq %s %s %s %s" % (cz(o[1]), cz(o[2]), cz(o[3]), cz(o[4]))
         if t == "set":
             return "XX (XSet %s %s %s)" % (cz(o[1]), cz(o[2]), cz(o[3]))
         if t == "get":
